@@ -47,12 +47,14 @@ type stormRec struct {
 	name      int
 	st        string
 	resp      []byte // whole server output
+	pi        *panicInfo
 	reflected bool
 	// reflection of this recording
 	rForm string
 	rName int
 	rSt   string
 	rSalt []byte
+	rPi   *panicInfo
 }
 
 func modeStorm(outPath string, g, n, sample int, seed int64) {
@@ -64,14 +66,25 @@ func modeStorm(outPath string, g, n, sample int, seed int64) {
 	auth := service.NewShadowsocksStreamAuthenticator(cl, &cache, nil, nil)
 	payload := []byte("response bytes of the storm stage")
 
-	handshake := func(key *shadowsocks.EncryptionKey, stream []byte, ip net.IP) (name int, st string, out []byte) {
+	// one connection, run like a handler of service.StreamServe: a panic of the code under test ends this connection
+	// only.  st = "PANIC" if it happened before the authenticator returned; pi != nil with st = "OK" if it happened
+	// while the response was started.
+	handshake := func(key *shadowsocks.EncryptionKey, stream []byte, ip net.IP) (name int, st string, out []byte, pi *panicInfo) {
 		c := &capConn{memConn: memConn{r: bytes.NewReader(stream), ip: ip}}
-		id, conn, err := auth(c)
-		if err != nil {
-			return 0, err.Status, nil
+		st = "PANIC"
+		pi = guard(func() {
+			id, conn, err := auth(c)
+			if err != nil {
+				st = err.Status
+				return
+			}
+			name, st = nameOfID(id), "OK"
+			conn.Write(payload) // first write: the response writer draws its salt from the entry's generator
+		})
+		if st != "OK" {
+			name = 0
 		}
-		conn.Write(payload) // first write: the response writer draws its salt from the entry's generator
-		return nameOfID(id), "OK", c.out
+		return name, st, c.out, pi
 	}
 
 	var all []*stormRec
@@ -96,8 +109,8 @@ func modeStorm(outPath string, g, n, sample int, seed int64) {
 				<-start
 				out := make([]*stormRec, 0, n)
 				for i := 0; i < n; i++ {
-					name, st, resp := handshake(key, streams[i], ip)
-					out = append(out, &stormRec{cls: ks.Cls, cliSalt: streams[i][:ss], name: name, st: st, resp: resp})
+					name, st, resp, pi := handshake(key, streams[i], ip)
+					out = append(out, &stormRec{cls: ks.Cls, cliSalt: streams[i][:ss], name: name, st: st, resp: resp, pi: pi})
 				}
 				recs[gi] = out
 			}(gi)
@@ -111,7 +124,7 @@ func modeStorm(outPath string, g, n, sample int, seed int64) {
 		// phase 2: reflections of phase-1 recordings in the middle of more genuine handshakes
 		var cand []*stormRec
 		for _, r := range p1 {
-			if r.st == "OK" && len(r.resp) >= 50 {
+			if r.st == "OK" && r.pi == nil && len(r.resp) >= 50 {
 				cand = append(cand, r)
 			}
 		}
@@ -157,12 +170,12 @@ func modeStorm(outPath string, g, n, sample int, seed int64) {
 				<-start2
 				var out []*stormRec
 				for _, j := range jobs {
-					name, st, resp := handshake(key, j.stream, ip)
+					name, st, resp, pi := handshake(key, j.stream, ip)
 					if j.rec == nil {
-						out = append(out, &stormRec{cls: ks.Cls, cliSalt: j.stream[:ss], name: name, st: st, resp: resp})
+						out = append(out, &stormRec{cls: ks.Cls, cliSalt: j.stream[:ss], name: name, st: st, resp: resp, pi: pi})
 					} else {
-						j.rec.reflected, j.rec.rName, j.rec.rSt, j.rec.rSalt = true, name, st, j.stream[:ss]
-						if st == "OK" {
+						j.rec.reflected, j.rec.rName, j.rec.rSt, j.rec.rSalt, j.rec.rPi = true, name, st, j.stream[:ss], pi
+						if st == "OK" && pi == nil {
 							// an accepted reflection produced a response as well
 							out = append(out, &stormRec{cls: ks.Cls, cliSalt: j.stream[:ss], name: name, st: st, resp: resp})
 						}
@@ -206,23 +219,35 @@ func modeStorm(outPath string, g, n, sample int, seed int64) {
 		tr.Emit(ev{"ev": "Resp", "c": 1, "t": tok(r.resp[:ss]), "mark": markOK(secretOf(kidx(r.cls)), r.resp[:ss]), "bytes": len(r.resp),
 			"cls": r.cls, "salt": hex.EncodeToString(r.resp[:ss])})
 	}
-	nrefl, naccepted := 0, 0
+	nrefl, naccepted, npanic := 0, 0, 0
 	for _, r := range refl {
 		nrefl++
 		if r.rSt == "OK" {
 			naccepted++
 		}
 		tr.Emit(ev{"ev": "Hello", "c": 2, "k": kidx(r.cls), "t": tok(r.rSalt), "form": "server:" + r.rForm})
-		tr.Emit(ev{"ev": "Auth", "c": 2, "name": r.rName, "st": r.rSt})
+		if r.rSt != "PANIC" {
+			tr.Emit(ev{"ev": "Auth", "c": 2, "name": r.rName, "st": r.rSt})
+		}
+		if r.rPi != nil {
+			npanic++
+			tr.Emit(ev{"ev": "Panic", "c": 2, "where": r.rPi.Where, "msg": r.rPi.Msg, "cls": r.cls})
+		}
 	}
 	// every response salt of the storm: new? marked?
 	mass := map[string]int{}
 	nresp, nfail, nunmarked := 0, 0, 0
 	for _, r := range all {
-		if r.st != "OK" {
+		if r.st != "OK" || r.pi != nil {
 			nfail++
 			tr.Emit(ev{"ev": "Hello", "c": 3, "k": kidx(r.cls), "t": tok(r.cliSalt), "form": "fresh"})
-			tr.Emit(ev{"ev": "Auth", "c": 3, "name": r.name, "st": r.st})
+			if r.st != "PANIC" {
+				tr.Emit(ev{"ev": "Auth", "c": 3, "name": r.name, "st": r.st})
+			}
+			if r.pi != nil {
+				npanic++
+				tr.Emit(ev{"ev": "Panic", "c": 3, "where": r.pi.Where, "msg": r.pi.Msg, "cls": r.cls})
+			}
 			continue
 		}
 		ss := saltSizes[r.cls]
@@ -246,6 +271,6 @@ func modeStorm(outPath string, g, n, sample int, seed int64) {
 	}
 	tr.Close()
 	writeJSONStdout(map[string]any{"handshakes": len(all), "responses": nresp, "refused_genuine": nfail, "reflections": nrefl,
-		"reflections_accepted": naccepted, "bad_or_repeated_salts": nunmarked, "goroutines": g})
+		"reflections_accepted": naccepted, "bad_or_repeated_salts": nunmarked, "goroutines": g, "panics": npanic})
 	_ = time.Now
 }
